@@ -47,6 +47,8 @@ type c03ScfgT struct {
 	size      uint64
 	src, rid  string
 	globalKey string
+	met       bool // conf.Options.Metric (the delay sampling of addSendId is only active then)
+	dcap      int  // capacity of the syncer's delay channel (0: the hook's default)
 }
 
 type c03SrcCmd struct {
@@ -91,8 +93,12 @@ func c03ParsePcfg(s string) c03PcfgT {
 func c03ParseScfg(s string) c03ScfgT {
 	m := c03Kvs(s)
 	sz, _ := strconv.ParseUint(m["size"], 10, 64)
+	dcap := 0
+	if m["dcap"] != "" {
+		dcap = atoi(m["dcap"])
+	}
 	return c03ScfgT{res: m["res"] == "1", cnt: uint(atoi(m["cnt"])), size: sz, src: string(unhx(m["src"])), rid: string(unhx(m["rid"])),
-		globalKey: "cnt=" + m["cnt"] + ",size=" + m["size"]}
+		globalKey: "cnt=" + m["cnt"] + ",size=" + m["size"] + ",met=" + m["met"], met: m["met"] == "1", dcap: dcap}
 }
 
 func c03ParseArgs(s string) [][]byte {
@@ -214,6 +220,7 @@ func c03ApplyPcfg(p c03PcfgT) {
 func c03ApplyScfg(s c03ScfgT) {
 	conf.Options.SenderCount = s.cnt
 	conf.Options.SenderSize = s.size
+	conf.Options.Metric = s.met
 }
 
 // ---------------------------------------------------------------- fake redigo.Conn
@@ -457,6 +464,9 @@ func c03RunPipeScenario(f []string) string {
 		bufCap = 1
 	}
 	ds := dbSync.VerifC03NewSyncer(0, s.src, s.rid, utils.CheckpointKey, s.res, startDb, int64(base), bufCap)
+	if s.dcap > 0 {
+		ds.VerifC03SetDelayCap(s.dcap)
+	}
 	conn := &c03FakeConn{done: make(chan struct{})}
 	if len(cmds) > 0 {
 		conn.endArgs = cmds[len(cmds)-1].args
